@@ -70,7 +70,9 @@ HasBody(r)     == r \in {"av", "as"}
 IsProto(r)     == r \in {"av", "gcv", "as", "gs"}
 
 CidClass(f) == CASE f = "valid" -> "yes"
-                 [] f \in {"braced", "urn", "simple", "upper"} -> "either"
+                 \* "spaces": optional whitespace around a header value is removed by HTTP/1.1 framing on a real
+                 \* connection and kept by the in-process request builder
+                 [] f \in {"braced", "urn", "simple", "upper", "spaces"} -> "either"
                  [] OTHER -> "no"
 PidClass(f) == CASE f = "valid" -> "yes"
                  [] f \in {"braced", "simple", "upper", "urn"} -> "either"
